@@ -142,7 +142,7 @@ func (s *c6Scene) tokens() string {
 		if t.sampler == nil {
 			w(" 0")
 		} else {
-			w(" 1 %d %d %d %d %s", int(t.sampler.MagFilter), int(t.sampler.MinFilter), int(t.sampler.WrapS), int(t.sampler.WrapT), q(t.sampler.Name))
+			w(" 1 %d %d %d %d %s %d", int(t.sampler.MagFilter), int(t.sampler.MinFilter), int(t.sampler.WrapS), int(t.sampler.WrapT), q(t.sampler.Name), c6SamplerTag(t.sampler))
 		}
 		if t.xf == nil {
 			w(" -1")
@@ -460,11 +460,12 @@ type r6Img struct {
 	URI string `json:"uri"`
 }
 type r6Samp struct {
-	Name      string `json:"name"`
-	MagFilter int    `json:"magFilter"`
-	MinFilter int    `json:"minFilter"`
-	WrapS     int    `json:"wrapS"`
-	WrapT     int    `json:"wrapT"`
+	Extras    map[string]any `json:"extras"`
+	Name      string         `json:"name"`
+	MagFilter int            `json:"magFilter"`
+	MinFilter int            `json:"minFilter"`
+	WrapS     int            `json:"wrapS"`
+	WrapT     int            `json:"wrapT"`
 }
 type r6Scene struct {
 	Nodes []int `json:"nodes"`
@@ -820,7 +821,11 @@ func (d *r6Doc) tokens() (string, []string) {
 	}
 	w(" samplers %d", len(d.Samplers))
 	for _, s := range d.Samplers {
-		w(" %d %d %d %d %s", s.MagFilter, s.MinFilter, s.WrapS, s.WrapT, q(s.Name))
+		tag := 0
+		if v, ok := s.Extras["k"].(float64); ok {
+			tag = int(v)
+		}
+		w(" %d %d %d %d %s %d", s.MagFilter, s.MinFilter, s.WrapS, s.WrapT, q(s.Name), tag)
 	}
 	var lightToks []string
 	for k, raw := range d.Extensions {
@@ -1074,8 +1079,11 @@ func (c *Ctx) c6Tex() c6Tex {
 			WrapS:     []gltf.SamplerWrap{gltf.SamplerWrap_REPEAT, gltf.SamplerWrap_CLAMP_TO_EDGE}[c.Rng.Intn(2)],
 			WrapT:     gltf.SamplerWrap_REPEAT,
 		}
+		if c.Rng.Intn(4) == 0 {
+			t.sampler.Name = []string{"smp", "alt"}[c.Rng.Intn(2)]
+		}
 		if c.Rng.Intn(5) == 0 {
-			t.sampler.Name = "smp"
+			c6SetSamplerTag(t.sampler, 1+c.Rng.Intn(2))
 		}
 	}
 	if c.Rng.Intn(3) == 0 {
@@ -1083,6 +1091,22 @@ func (c *Ctx) c6Tex() c6Tex {
 		t.req = c.Rng.Intn(2) == 0
 	}
 	return t
+}
+
+// Extras of a sampler carry one integer under "k": its value is the equality class ("tag") the model sees
+func c6SamplerTag(s *gltf.Sampler) int {
+	if v, ok := s.Extras["k"].(int); ok {
+		return v
+	}
+	return 0
+}
+
+func c6SetSamplerTag(s *gltf.Sampler, tag int) {
+	if tag == 0 {
+		s.Extras = nil
+	} else {
+		s.Extras = map[string]any{"k": tag}
+	}
 }
 
 func (c *Ctx) c6Xf() []float64 {
@@ -1297,7 +1321,11 @@ func (c *Ctx) c6Scene(level int, big int) *c6Scene {
 				case 3:
 					smp.MinFilter = gltf.SamplerMinFilter_LINEAR
 				default:
-					t.uri = p.uri + "2"
+					if c.Rng.Intn(2) == 0 {
+						t.uri = p.uri + "2"
+					} else {
+						smp.Name = smp.Name + "n"
+					}
 				}
 				t.sampler = &smp
 				c.Note("tex.near-duplicate")
@@ -1555,7 +1583,7 @@ func (c *Ctx) c6TexStress() *c6Scene {
 		base.sampler = &gltf.Sampler{MagFilter: gltf.SamplerMagFilter_LINEAR, MinFilter: gltf.SamplerMinFilter_NEAREST, WrapS: gltf.SamplerWrap_REPEAT, WrapT: gltf.SamplerWrap_REPEAT}
 	}
 	s.texs = []c6Tex{base}
-	for v := 0; v < 7; v++ {
+	for v := 0; v < 9; v++ {
 		if c.Rng.Intn(3) == 0 {
 			continue
 		}
@@ -1586,6 +1614,10 @@ func (c *Ctx) c6TexStress() *c6Scene {
 			t.uri = base.uri + ".alt"
 		case 5:
 			t.sampler = nil
+		case 6:
+			smp.Name = base.sampler.Name + "x" // only the sampler NAME differs (defect fixed by 8f08ae3)
+		case 7:
+			c6SetSamplerTag(&smp, c6SamplerTag(base.sampler)+1) // only the sampler EXTRAS differ
 		default: // exact value duplicate under its own pointers
 		}
 		s.texs = append(s.texs, t)
@@ -1610,8 +1642,24 @@ func (c *Ctx) c6TexStress() *c6Scene {
 	return s
 }
 
+// corpus witness of the defect fixed by 8f08ae3: two materials whose base colour textures differ only in the sampler NAME
+// must be written as two materials, two textures, two samplers
+func c6SamplerNameWitness() *c6Scene {
+	s := c6Witness()
+	s1 := &gltf.Sampler{WrapS: gltf.SamplerWrap_REPEAT, WrapT: gltf.SamplerWrap_REPEAT}
+	s1.Name = "first"
+	s2 := &gltf.Sampler{WrapS: gltf.SamplerWrap_REPEAT, WrapT: gltf.SamplerWrap_REPEAT}
+	s2.Name = "second"
+	s.texs = []c6Tex{{uri: "a.png", sampler: s1}, {uri: "a.png", sampler: s2}}
+	s.mats = []c6Mat{{name: "m", hasPbr: true, bct: 0, mrt: -1, normal: -1, occl: -1}, {name: "m", hasPbr: true, bct: 1, mrt: -1, normal: -1, occl: -1}}
+	s.models[0].mat, s.models[1].mat = 0, 1
+	return s
+}
+
 func runC06(c *Ctx) {
 	// fixed cases first
+	c.c6Case(c6SamplerNameWitness(), true, "")
+	c.c6Case(c6SamplerNameWitness(), false, "")
 	c.c6Case(c6Witness(), true, "witness")
 	c.c6Case(c6Witness(), false, "witness")
 	c.c6Case(c6XfWitness(), true, "xfwitness")
